@@ -45,6 +45,8 @@ func init() {
 			"Before a disagreement about a valid document is reported, and on 1 case in 32 regardless, the document is re-parsed untyped with the format's own library and compared with the tree (renderer self-check; a failure is a harness failure, exit 2). " +
 			"Shard 0 also runs a hand-written four-format corpus through dials.Config (case 0), the smallest []time.Time case (case 1), an observed-only map[string]struct probe (case 2) and three documents of 4.9-5.7 MB in every format (long string list, big map, long struct list, each with ordinary keys around it; case 3). " +
 			"35% of nested struct / *struct fields outside slice elements are EMBEDDED (anonymous) fields carrying a dials tag: about half keyed by their own Go name in another case (Limits `dials:\"limits\"`, MaxConn `dials:\"maxConn\"`), the others by a differently spelled tag; the static type embeds three such members. " +
+			"JSON documents are written by encoding/json (40%), by the harness's writer with every non-ASCII character escaped (25%, surrogate pairs above the BMP) or with any character - plain ASCII included, in keys and in values - possibly written as \\uXXXX / a short escape (35%); YAML, TOML and Cue double-quoted values now and then spell an ASCII character as \\uXXXX too. " +
+			"Each field gets, with probability 12% per format name, a tag of another library whose key merely ends in json / yaml / toml (geojson, goyaml, legacytoml, ...; arbitrary value), usually without a real tag of that format; the static type carries three. " +
 			"distinct_nontrivial counts distinct (schema signature, presence pattern) pairs of data trees with >= 3 present leaves.",
 		Assumptions: []string{
 			"the Cue decoder's format tag is `json` (cue.go copies dials tags to json tags); a `cue:\"...\"` tag is inert and is generated only as a decoy",
@@ -52,6 +54,8 @@ func init() {
 			"data outside what all four formats (as read by the pinned libraries) can express is not generated: uint64 > MaxInt64 (TOML), MinInt64 (cue v0.6.0: 'value was rounded up'), +-MaxFloat32 (go-toml and cue range-check the float64 literal), NaN/Inf/-0 (JSON), []uint8 (base64 in JSON), empty []struct (TOML), slices of a user-defined TextUnmarshaler struct (go-toml cannot fill them), invalid UTF-8, null, the empty document",
 			"float32 literals are kept only when parse-as-float64-then-narrow equals parse-as-float32 (the libraries differ in which they do)",
 			"ill-typed classes on which yaml.v2 legitimately coerces (number for string, float for int, list of small ints for net.IP) are not judged",
+			"time.Time strings are written without optional escapes in JSON: the Go standard library's time.Time.UnmarshalJSON strips the quotes by hand and never decodes escapes (not dials code); every other string leaf, durations included, may be spelled with escapes",
+			"escapes are not put into quoted TOML keys: go-toml does not decode them in table headers",
 			"embedded struct members are generated only with a dials tag (a named member of the document in all four formats) and not inside slice elements, where go-toml alone falls back to filling an embedded struct VALUE whose key is absent from its parent's table",
 			"map[string]struct values are observed only, not judged: the statement does not say whether 'string-keyed maps' includes struct values (on the pinned tree their dials tags are not honoured; see observed_only_map_of_struct)",
 			"unknown document keys (the decoys) are expected to be ignored, which is what all four libraries do by default",
@@ -65,6 +69,7 @@ func init() {
 				"duration_ns_leaves_compared": 10000, "stacks_compared": 90000, "pairwise_compared": 130000,
 				"illtyped_judged": 90000, "malformed_judged": 55000, "decoys_rendered": 150000,
 				"config_api_valid": 10000, "config_api_rejected": 18000, "selfcheck_ok": 2500, "fixed_corpus_documents": 4,
+				"fields_with_lookalike_foreign_tag_compared": 250000, "json_documents_with_unicode_escapes": 25000,
 				"large_documents_judged": 12, "embedded_members_compared": 60000, "embedded_members_keyed_by_own_name_compared": 30000,
 			},
 			"thorough": {
@@ -73,6 +78,7 @@ func init() {
 				"duration_ns_leaves_compared": 150000, "stacks_compared": 1200000, "pairwise_compared": 1800000,
 				"illtyped_judged": 1200000, "malformed_judged": 750000, "decoys_rendered": 2000000,
 				"config_api_valid": 150000, "config_api_rejected": 250000, "selfcheck_ok": 35000, "fixed_corpus_documents": 4,
+				"fields_with_lookalike_foreign_tag_compared": 2500000, "json_documents_with_unicode_escapes": 250000,
 				"large_documents_judged": 12, "embedded_members_compared": 800000, "embedded_members_keyed_by_own_name_compared": 400000,
 			},
 		},
@@ -157,6 +163,9 @@ func c13DiffKey(prefix string, fm c13Fmt, d c13Diff) string {
 	if d.own {
 		k += ":format-tag"
 	}
+	if d.lookalike {
+		k += ":lookalike-tag"
+	}
 	if d.elem {
 		k += ":in-slice-elem"
 	}
@@ -214,10 +223,18 @@ func (c *c13Run) classifyDecodeError(fm c13Fmt, top *c13Val) (string, string) {
 	cur := top
 	sig := ""
 	doc := ""
+	// several renderings per candidate: whether a document is rejected may
+	// depend on how it is spelled (quoting style, escapes), not only on its data
 	rejects := func(p []c13Step, salt int) (string, bool) {
-		d := c13Render(fm, c13Only(top, p), fw.NewRand(uint64(salt)))
-		_, err := c.decode(fm, d)
-		return d, err != nil
+		only := c13Only(top, p)
+		d := ""
+		for k := 0; k < 6; k++ {
+			d = c13Render(fm, only, fw.NewRand(uint64(salt+7919*k)))
+			if _, err := c.decode(fm, d); err != nil {
+				return d, true
+			}
+		}
+		return d, false
 	}
 	for depth := 0; depth < 8 && cur != nil; depth++ {
 		found := false
@@ -274,6 +291,9 @@ func (c *c13Run) judgeValid(tree *c13Val) [4]c13Result {
 		name := c13FmtNames[fm]
 		doc := c13Render(fm, tree, c.r.Fork())
 		res[fm].doc = doc
+		if fm == c13JSON && strings.Contains(doc, "\\u00") {
+			w.Count("json_documents_with_unicode_escapes", 1)
+		}
 		out, err := c.decode(fm, doc)
 		res[fm].out, res[fm].err = out, err
 		if err != nil {
@@ -295,6 +315,7 @@ func (c *c13Run) judgeValid(tree *c13Val) [4]c13Result {
 		w.Count("own_tag_leaves_compared", m.ownSeen)
 		w.Count("duration_ns_leaves_compared", m.nsSeen)
 		w.Count("embedded_members_compared", m.embSeen)
+		w.Count("fields_with_lookalike_foreign_tag_compared", m.foreignSeen)
 		w.Count("embedded_members_keyed_by_own_name_compared", m.embFoldSeen)
 		if len(m.diffs) > 0 {
 			if c.rendererOK(fm, doc, tree) {
